@@ -340,7 +340,8 @@ func (r *crashRunner) Exec(line string) string {
 		}
 	case "tick":
 		if r.gate == nil || !letTimerFlush(r.gate, 30*time.Second) {
-			r.add("C10", "timer-never-fired", "the BatchDelaySeconds timer did not fire within 30s")
+			// not a violation by itself: the boundary image taken below must be the flushed state
+			r.tag("tick-unobserved")
 		}
 	case "close":
 		unregisterGate(filepath.Join(r.dir, "db"))
